@@ -313,7 +313,7 @@ func main() {
 	buildSim()
 	var code int
 	switch {
-	case *replay != "" && prop != "selfdiff":
+	case *replay != "" && prop != "selfdiff" && prop != "plandiff":
 		code = doReplay(prop, *replay)
 	case prop == "warm":
 		// build + one run, to warm the Go build cache and the wazero compilation cache
@@ -327,6 +327,9 @@ func main() {
 	case prop == "selfdiff":
 		// vcheck selfdiff --runs <case index> --replay <property>
 		code = doSelfDiff(*replay, *runs, seed)
+	case prop == "plandiff":
+		// vcheck plandiff --runs <case index> --replay <property>: plans the case several times and prints where the scenarios differ
+		code = doPlanDiff(*replay, *runs, seed)
 	case prop == "selftest":
 		code = doSelftest(*tier, seed, *workers)
 	default:
